@@ -121,6 +121,7 @@ pub fn run(ctx: &mut Ctx) {
     repeated_types(ctx, if quick { 8 } else { 200 });
     ctx.require("repeated-type-messages", 500);
     ctx.require("typed-lookup-with-repeated-type", 500);
+    ctx.require("tracing-events-seen-under-the-subscriber", 1_000);
     ctx.require("accepted", 10_000);
     ctx.require("reject:NotStun", 100);
     ctx.require("reject:Truncated", 1_000);
